@@ -10,7 +10,7 @@ def first_line_of_notes(d):
         if l: return l[:110]
     return ""
 print("### 15.1 Independent seeded changes (sub-agents given only the property text and a scratch worktree)\n")
-print("| change | breaks | passes pinned suite, demo fails with / passes without | caught by (release, quick tier) | own check, debug profile |")
+print("| change | property; what it needs in order to manifest | passes pinned suite, demo fails with / passes without | caught by (release, quick tier) | own check, debug profile |")
 print("|---|---|---|---|---|")
 for d in sorted(glob.glob(os.path.join(HERE,"seeded","*"))):
     mp=os.path.join(d,"meta.json")
@@ -18,7 +18,7 @@ for d in sorted(glob.glob(os.path.join(HERE,"seeded","*"))):
     m=json.load(open(mp))
     conf="yes" if "CONFIRMED" in m["confirmed_by_me"] and "NOT-CONFIRMED" not in m["confirmed_by_me"] else "NO: "+m["confirmed_by_me"]
     caught=" ".join(m["checks_that_caught_it_rel"]) or ("— (only in the debug profile, see next column)" if m["own_check_caught_it_dbg"] else "— (not flagged, by design: §16)")
-    print(f"| {os.path.basename(d)} | {m['property']}: {m.get('summary', first_line_of_notes(d))} | {conf} | {caught} | {' '.join(m['own_check_caught_it_dbg']) or '—'} |")
+    print(f"| {os.path.basename(d)} | {m['property']}; {m.get('needs_to_manifest','')} | {conf} | {caught} | {' '.join(m['own_check_caught_it_dbg']) or '—'} |")
 print("\n### 15.2 The author's own mutants (mutants/own)\n")
 print("| mutant | pinned suite | caught by (release, quick tier) |")
 print("|---|---|---|")
